@@ -78,6 +78,23 @@ impl ToTokens for FromMetaImpl<'_> {
                 } else {
                     None
                 };
+                // As for a named field and for the field of a newtype variant, a field that has a
+                // default of its own takes it when nothing was written. For a newtype that is the
+                // value for an absent item, unless the container says what that value is.
+                let from_none = from_none.or_else(|| {
+                    use crate::codegen::DefaultExpression;
+                    match field.default_expression.as_ref().filter(|_| !field.skip) {
+                        Some(
+                            default @ (DefaultExpression::Explicit(_)
+                            | DefaultExpression::Trait { .. }),
+                        ) => Some(quote!(
+                            fn from_none() -> ::darling::export::Option<Self> {
+                                ::darling::export::Some(#ty_ident(#default))
+                            }
+                        )),
+                        _ => None,
+                    }
+                });
                 quote!(
                     #from_list
 
